@@ -53,8 +53,15 @@ def scan(parts):
             elif op == "src":
                 x = s.get_as_source_or_null(); r = "N" if x is None else canon.q(x)
             elif op == "psrc": r = canon.q(s.pop_as_source())
-            elif op == "gkid": r = "kids%d" % len(s.get_as_children_scanner().elements)
-            elif op == "pkid": r = "kids%d" % len(s.pop_as_children_scanner().elements)
+            elif op == "gkid":
+                c = s.get_as_children_scanner(); r = "kids%d/%d" % (len(c.elements), c.pos)
+            elif op == "pkid":
+                c = s.pop_as_children_scanner(); r = "kids%d/%d" % (len(c.elements), c.pos)
+            elif op == "gkadv":
+                # look ahead INSIDE the group: take the child cursor, advance it by one token (if it has one), throw it away
+                c = s.get_as_children_scanner()
+                if not c.is_finish: c.pop()
+                r = "kids%d/%d" % (len(c.elements), c.pos)
             elif op == "split": r = "split" + ",".join(str(len(c.elements)) for c in s.pop_as_children_scanner_list_split_by(a[0]))
             else: r = "BADOP"
         except Exception as e:
